@@ -22,10 +22,10 @@ from .proggen_mut import mutants, renamings  # noqa: F401  (re-exported)
 
 CFG = {
     'quick': dict(max_types=4, type_depth=2, max_branches=3, prc=(1, 4), budget=(1, 6), max_split=1,
-                  max_helper_depth=2, max_forms=40, max_procs=12, p_print=0.22, p_reuse_name=0.08,
+                  max_helper_depth=2, max_forms=30, max_procs=12, p_print=0.22, p_reuse_name=0.08,
                   p_explicit_provider=0.2, p_explicit_self_arg=0.3, p_reuse_cut_name=0.08, fuel=4000),
     'thorough': dict(max_types=10, type_depth=3, max_branches=3, prc=(1, 8), budget=(3, 22), max_split=3,
-                     max_helper_depth=4, max_forms=160, max_procs=60, p_print=0.2, p_reuse_name=0.1,
+                     max_helper_depth=4, max_forms=130, max_procs=60, p_print=0.2, p_reuse_name=0.1,
                      p_explicit_provider=0.2, p_explicit_self_arg=0.3, p_reuse_cut_name=0.1, fuel=20000),
 }
 
